@@ -745,8 +745,9 @@ class Plucker(SMUserList):
         else:
             # lines are skew or intersecting
             w = np.cross(l1.w, l2.w)
-            v = np.cross(l1.v, l2.w) - np.cross(l2.v, l1.w) + \
-                (l1 * l2) * np.dot(l1.w, l2.w) * base.unitvec(np.cross(l1.w, l2.w))
+            # point of l1 closest to l2; the common perpendicular passes through it
+            c1 = (np.cross(l1.v, np.cross(l2.w, w)) - np.dot(l2.v, w) * l1.w) / np.dot(w, w)
+            v = np.cross(w, c1)
             
         return Plucker(v, w)
 
